@@ -19,7 +19,7 @@ func init() {
 			"R1": "field-to-field copy for hand options and the published hand blinds",
 			"R2": "published hand blinds are a fresh composite literal (no alias of the mutable level)",
 			"R3": "single consistent read: one by-value snapshot, or readers and writers under the engine mutex",
-			"R4": "writers: level fields only in the update operation (param i → field i); hand-blind record only at hand start; level pointer only at creation",
+			"R4": "writers: level fields only in the update operation (param i → field i); hand-blind record only at hand start; level pointer only at creation; the engine's live table object is replaced only by a new table or by the open step's clone (never by an earlier object), so an accepted blind update is not discarded",
 			"R5": "break guards: open refuses before rotate/increment; pause predicate uses the break predicate; creation on a break starts paused; predicates asked of the live level; blinds-set predicate definition; a table created paused stays paused; the continue handler pauses iff the pause predicate holds when the interval has elapsed",
 		},
 		Assumptions: []string{"pokerface charges exactly the ante/blinds it is given in the options"},
@@ -35,6 +35,7 @@ func checkC12(c *Ctx) {
 	// "the table pauses after the current hand": the pause decision is taken by the continue handler when the
 	// interval has elapsed (shared with C08.R1) — a break that starts during the interval is honoured
 	checkContinueHandler(c, "R5")
+	checkTablePointerWriters(c, "R4")
 	et := p.singleImpl("", "TableEngine")
 	if et == nil {
 		c.Bad("R1", "anchors", "-", "engine not found")
@@ -459,4 +460,40 @@ func (p *Prog) edgeGuardsInto(b *ssa.BasicBlock) []Guard {
 		}
 	}
 	return nil
+}
+
+// checkTablePointerWriters: the engine's live table object is replaced only by a freshly built table (creation)
+// or by the open step's result (the clone of the live table made under the engine mutex). Any other store —
+// e.g. putting an earlier object back after a failed start — discards blind updates (and every other
+// in-place write) made to the object that was live in between.
+func checkTablePointerWriters(c *Ctx, rule string) {
+	p := c.P
+	lc := p.lifecycle()
+	n := 0
+	for _, ss := range p.FieldStores("tableEngine", "table") {
+		n++
+		where := p.InstrPos(ss.Instr)
+		if rawLocal(ss.ValV) {
+			c.Ok(rule, "table-pointer-writer:"+fnName(ss.Fn), where, "fresh table at creation")
+			continue
+		}
+		ok := true
+		ss.Val.Walk(func(x *Sym) bool {
+			switch x.Kind {
+			case "phi", "strip":
+				return true
+			case "extract":
+				if !(lc.openFn != nil && x.Args[0].Strip().Kind == "call" && x.Args[0].Strip().Call.Common().StaticCallee() == lc.openFn) {
+					ok = false
+				}
+				return false
+			default:
+				ok = false
+				return false
+			}
+		})
+		c.Check(ok, rule, "table-pointer-writer:"+fnName(ss.Fn), where, "the open step's clone",
+			fnName(ss.Fn)+" replaces the live table by "+ss.Val.String()+", which is neither a new table nor the open step's clone: writes made in place to the table that was live until then (a blind update, a re-buy) are discarded")
+	}
+	c.Min(rule, "stores of the engine's table pointer", n, 2)
 }
